@@ -44,8 +44,8 @@ TRUSTED_BASE = [
     '_SO_intermediate* templates, destroySelf clean-up loops); it fails closed on any other shape',
     'Model/Joins.v is hand-written: list.sort is a stable sort and reverse=True keeps stability (Python); MinType sorts below ints; '
     'sqlite: a SELECT without ORDER BY scans in rowid order, AUTOINCREMENT ids are max-ever+1, NULL sorts lowest, '
-    'ORDER BY is lexicographic with ties in unspecified order, foreign keys are not enforced, an unqualified `id` over several '
-    'tables is rejected as ambiguous -- each validated by execution on every case, none proved',
+    'ORDER BY is lexicographic with ties in unspecified order, foreign keys are not enforced '
+    '-- each validated by execution on every case, none proved',
     'objects are identified with their rows: the list joins read sort keys from cached attribute values, assumed equal to the '
     'stored values (single connection, cache on: property C05)',
     'fixture: three classes, default cascade=None on the foreign key, explicit intermediateTable/joinColumn/otherColumn names; '
@@ -193,7 +193,7 @@ def corpus():
             cr(1, [None, 5, None], ['obj', 1]), cr(1, [1, None, None], ['obj', 1]), cr(1, [1, 7, None], ['obj', 1]),
             {'op': 'add', 'j': 'rbs', 'via': 0, 'x': 1, 'y': 3}, {'op': 'add', 'j': 'ras', 'via': 1, 'x': 1, 'y': 1},
             {'op': 'add', 'j': 'rbs', 'via': 1, 'x': 1, 'y': 5}, {'op': 'add', 'j': 'rbs', 'via': 0, 'x': 1, 'y': 2}]),
-        # open finding: orderBy 'id' on a query-flavoured related join
+        # fixed finding (16e77ff): orderBy 'id' on a query-flavoured related join
         mk([None, 'id', None, None, None, None],
            [cr(0, [None, None, None]), cr(1, [None, None, None]), {'op': 'add', 'j': 'rbs', 'via': 0, 'x': 1, 'y': 1}]),
         mk([None, None, None, None, ['tuple', '-k0', 'id'], '-id'],
@@ -217,14 +217,14 @@ def generate(rng, tier):
     out = []
     n = 640 if tier == 'quick' else 6000
     for k in range(n):
-        out.append(rand_history(rng, rng.randint(5, 40), malformed=(k % 8 == 7), with_id=(k % 4 == 0)))
+        out.append(rand_history(rng, rng.randint(5, 40), malformed=(k % 8 == 7), with_id=(k % 3 != 0)))
     return out
 
 
 def search_cases(rng, tier):
     out = []
     for k in range(1500 if tier == 'quick' else 6000):
-        out.append(rand_history(rng, rng.randint(5, 40), malformed=(k % 8 == 7), with_id=(k % 4 == 0), maxobj=6))
+        out.append(rand_history(rng, rng.randint(5, 40), malformed=(k % 8 == 7), with_id=(k % 3 != 0), maxobj=6))
     return out
 
 
@@ -648,27 +648,16 @@ def failures(case, obs):
                             'what': 'the ordering is total, yet %s=%r and %s=%r' % (ACC[nl], r[1], ACC[nq], q[1])}
 
 
-def known_trigger(f):
-    """the trigger class of the open finding sqlrelatedjoin_orderby_id_ambiguous, and nothing wider"""
-    if f.get('kind') == 'error' and f.get('accessor') in ('rbsq', 'psq', 'rasq', 'frq', 'ofq') \
-            and f.get('error') == 'OperationalError':
-        return any(k.lstrip('-') == 'id' for k in order_names(f.get('orderBy')))
-    return False
-
-
 def oracle(case, obs):
-    """the first failure that is not of the known trigger class; a known one only when nothing else fails"""
-    known = None
+    """the first way in which the observation contradicts the property"""
     for f in failures(case, obs):
-        if not known_trigger(f):
-            return f
-        known = known or f
-    return known
+        return f
+    return None
 
 
 def classify(case, obs, f):
-    # open finding: a query-flavoured related join whose orderBy names 'id' is refused by the database
-    return 'sqlrelatedjoin_orderby_id_ambiguous' if known_trigger(f) else None
+    # no open finding: sqlrelatedjoin_orderby_id_ambiguous is fixed (16e77ff) and suppresses nothing
+    return None
 
 
 def nontrivial(case, obs):
